@@ -871,6 +871,126 @@ proof { assert(all_done(p, ab)); }
 """),
     ])
 
+renumber = Fn(F_MIN, 'Minimizer', 'renumber_states_in_transitions', props=P, attrs='#[verifier::loop_isolation(false)] #[verifier::allow_complex_invariants]',
+    spec="""
+requires
+    partition@.len() <= u32::MAX, exists|n: int| part_ok(pv(partition@), n) && tv_bounded(old(transitions)@, n),
+ensures
+    // every state id (entry key and edge target) is replaced by the index of the group that holds it; nothing else changes
+    final(transitions)@.len() == old(transitions)@.len(),
+    forall|i: int| 0 <= i < old(transitions)@.len() ==> entry_renum(pv(partition@), #[trigger] old(transitions)@[i], final(transitions)@[i]),
+""",
+    edits=TRACE + [
+        Ins('body_start', None, """
+broadcast use axiom_stateid_cmp, axiom_ccid_cmp;
+let ghost p = pv(partition@);
+let ghost tv0 = transitions@;
+let ghost n = choose|n: int| part_ok(p, n) && tv_bounded(tv0, n);
+"""),
+        Wrap('E3', 'let find_group_of_state = |state_id: StateID| -> StateID {', """
+let find_group_of_state = |state_id: StateID| -> (r: StateID)
+    requires has_grp(pv(partition@), state_id.0 as int), partition@.len() <= u32::MAX
+    ensures r.0 < partition@.len(), pv(partition@)[r.0 as int].contains(state_id)
+{""", "};", close_tail=1, why='closure given a contract (E3); its body is kept'),
+        Replace('E13', 'for (group_id, group) in partition.iter().enumerate() { $body }', """
+let mut __k: usize = 0;
+while __k < partition.len()
+    //@label renumber.find
+    invariant 0 <= __k <= partition@.len(), partition@.len() <= u32::MAX, forall|g: int| 0 <= g < __k ==> !(#[trigger] pv(partition@)[g]).contains(state_id),
+    decreases partition@.len() - __k
+{
+    let group_id: usize = __k;
+    let group = &partition[__k];
+    __k += 1;
+    $body
+}
+proof {
+    let g = choose|g: int| #[trigger] in_grp(pv(partition@), g, state_id.0 as int);
+    assert(StateID(state_id.0 as int as u32) == state_id);
+    assert(!pv(partition@)[g].contains(state_id));
+}
+""", why='`for (i, x) in v.iter().enumerate() { B }` as an index loop (E13); body kept verbatim'),
+        Wrap('E13', 'for transition in transitions.iter_mut() {', """
+let mut __i: usize = 0;
+while __i < transitions.len()
+    //@label renumber.entries
+    invariant
+        0 <= __i <= tv0.len(), transitions@.len() == tv0.len(), p == pv(partition@), partition@.len() <= u32::MAX, part_ok(p, n), tv_bounded(tv0, n),
+        forall|x: StateID| has_grp(p, x.0 as int) ==> #[trigger] find_group_of_state.requires((x,)),
+        forall|x: StateID, r: StateID| #[trigger] find_group_of_state.ensures((x,), r) ==> r.0 < p.len() && p[r.0 as int].contains(x),
+        forall|i: int| 0 <= i < __i ==> entry_renum(p, #[trigger] tv0[i], transitions@[i]),
+        forall|i: int| __i <= i < tv0.len() ==> #[trigger] transitions@[i] == tv0[i],
+    decreases tv0.len() - __i
+{
+    let ghost ei = __i as int;
+    proof { assert(transitions@[ei] == tv0[ei]); assert(tv0[ei].0.0 < n); assert(has_grp(p, tv0[ei].0.0 as int)); }
+    let transition = &mut transitions[__i];
+""", """
+    __i += 1;
+}
+""", why='iter_mut loop written as an index loop (E13: same elements, same order)'),
+        Wrap('E15', 'for target_states in transition.1.values_mut() {', """
+let __ks = verif_keys(&transition.1);
+let ghost m0 = tv0[ei].1@;
+proof { assert(transition.1@ == m0); }
+let mut __j: usize = 0;
+while __j < __ks.len()
+    //@label renumber.classes
+    invariant
+        0 <= __j <= __ks@.len(), __ks@.no_duplicates(), forall|cc: CharClassID| #[trigger] __ks@.contains(cc) <==> m0.contains_key(cc),
+        transition.0.0 < p.len() && p[transition.0.0 as int].contains(tv0[ei].0),
+        forall|cc: CharClassID| #[trigger] transition.1@.contains_key(cc) <==> m0.contains_key(cc),
+        forall|j: int| 0 <= j < __j ==> vec_renum(p, m0[#[trigger] __ks@[j]]@, transition.1@[__ks@[j]]@),
+        forall|j: int| __j <= j < __ks@.len() ==> transition.1@[#[trigger] __ks@[j]] == m0[__ks@[j]],
+    decreases __ks@.len() - __j
+{
+    let ghost kj = __ks@[__j as int];
+    let ghost m1 = transition.1@;
+    proof { assert(__ks@.contains(kj)); assert(m0.contains_key(kj)); assert(m1[kj] == m0[kj]); }
+    let target_states = transition.1.get_mut(&__ks[__j]).unwrap();
+    let ghost ts0 = m0[kj]@;
+""", """
+    proof {
+        let m2 = transition.1@;
+        assert forall|j: int| 0 <= j < __j + 1 implies vec_renum(p, m0[#[trigger] __ks@[j]]@, m2[__ks@[j]]@) by {
+            if j < __j { assert(__ks@[j] != kj); assert(m2[__ks@[j]] == m1[__ks@[j]]); }
+        }
+        assert forall|j: int| __j + 1 <= j < __ks@.len() implies m2[#[trigger] __ks@[j]] == m0[__ks@[j]] by { assert(__ks@[j] != kj); }
+    }
+    __j += 1;
+}
+proof {
+    assert forall|cc: CharClassID| #[trigger] m0.contains_key(cc) implies vec_renum(p, m0[cc]@, transition.1@[cc]@) by {
+        assert(__ks@.contains(cc));
+        let j = choose|j: int| 0 <= j < __ks@.len() && __ks@[j] == cc;
+        assert(vec_renum(p, m0[__ks@[j]]@, transition.1@[__ks@[j]]@));
+    }
+    assert(entry_renum(p, tv0[ei], *transition));
+}
+""", why='`for v in m.values_mut() { B }` visits every value once: written as a loop over the key list with `m.get_mut(&k).unwrap()` (E15; key list through a trusted wrapper, U5); body kept'),
+        Wrap('E13', 'for target_state in target_states.iter_mut() {', """
+let mut __q: usize = 0;
+while __q < target_states.len()
+    //@label renumber.targets
+    invariant
+        0 <= __q <= ts0.len(), target_states@.len() == ts0.len(),
+        forall|q: int| 0 <= q < __q ==> (#[trigger] target_states@[q]).0 < p.len() && p[target_states@[q].0 as int].contains(ts0[q]),
+        forall|q: int| __q <= q < ts0.len() ==> #[trigger] target_states@[q] == ts0[q],
+    decreases ts0.len() - __q
+{
+    proof {
+        assert(target_states@[__q as int] == ts0[__q as int]);
+        assert(ts0.contains(ts0[__q as int]));
+        assert(tv_edge(tv0, ei, kj, ts0[__q as int]));
+        assert(has_grp(p, ts0[__q as int].0 as int));
+    }
+    let target_state = &mut target_states[__q];
+""", """
+    __q += 1;
+}
+""", why='iter_mut loop written as an index loop (E13)'),
+    ])
+
 update_stub = Fn(F_MIN, 'Minimizer', 'update_transitions', props=P, external_body=True, trusted_reason='TEMPORARY: under construction',
     spec="""
 requires
@@ -1189,6 +1309,7 @@ FUNCS = [
     add_rep,
     merge_one,
     merge_all,
+    renumber,
     update_stub,
     create_from_partition,
     minimize,
